@@ -110,7 +110,7 @@ def render_struct(gen, name, ty):
         src.append("    fn from_model(v: &serde_json::Value) -> Self { let a = dv::model::arr(v); %s { %s } }" % (name, mk))
     else:
         src.append("    fn from_model(_v: &serde_json::Value) -> Self { %s }" % name)
-    src.append("    fn to_model(&self) -> serde_json::Value { serde_json::json!([20%s]) }" % to)
+    src.append("    fn to_model(&self) -> serde_json::Value { serde_json::Value::Array(vec![serde_json::json!(20)%s]) }" % to)
     src.append("}")
     return "\n".join(src)
 
@@ -141,14 +141,14 @@ def render_enum(gen, name, ty):
             from_arms.append("%d => %s::%s(%s)," % (i + 1, name, vn, mk))
             binds = ", ".join("x%d" % j for j in range(len(fields)))
             to = "".join(", dv::ModelType::to_model(x%d)" % j for j in range(len(fields)))
-            to_arms.append("%s::%s(%s) => serde_json::json!([21, %d%s])," % (name, vn, binds, i + 1, to))
+            to_arms.append("%s::%s(%s) => serde_json::Value::Array(vec![serde_json::json!(21), serde_json::json!(%d)%s])," % (name, vn, binds, i + 1, to))
         else:
             body = "%s { %s }" % (vn, ", ".join(render_fields(gen, fields, True, False)))
             mk = ", ".join("%s: dv::ModelType::from_model(&a[%d])" % (n, j + 2) for j, n in enumerate(fnames))
             from_arms.append("%d => %s::%s { %s }," % (i + 1, name, vn, mk))
             binds = ", ".join(fnames)
             to = "".join(", dv::ModelType::to_model(%s)" % n for n in fnames)
-            to_arms.append("%s::%s { %s } => serde_json::json!([21, %d%s])," % (name, vn, binds, i + 1, to))
+            to_arms.append("%s::%s { %s } => serde_json::Value::Array(vec![serde_json::json!(21), serde_json::json!(%d)%s])," % (name, vn, binds, i + 1, to))
         src.append("    %s %s," % (" ".join(attrs), body))
     src.append("}")
     src.append("impl dv::ModelType for %s {" % name)
